@@ -371,7 +371,10 @@ def rule_errors_close(ctx):
     # client: timeout closes
     fs = ctx.fn(f"{CLIENT}.send")
     cs = ctx.cfg(fs)
-    aw = [n for n in cs.nodes if n.kind == "await" and isinstance(n.ast, ast.Await) and unparse(n.ast.value) == "future"]
+    # the awaited local is the one that holds what conn.send() returned, whatever it is called
+    futs = {d.ast.id for d in cs.nodes if d.kind == "store" and isinstance(d.ast, ast.Name) and isinstance(getattr(d.stmt, "value", None), ast.Call)
+            and call_attr(d.stmt.value) == "send" and "_conns" in unparse(d.stmt.value.func)}
+    aw = [n for n in cs.nodes if n.kind == "await" and isinstance(n.ast, ast.Await) and isinstance(n.ast.value, ast.Name) and n.ast.value.id in futs]
     ok = len(aw) == 1
     if ok:
         hs = [m for m, l in aw[0].succ if l == "exc" and m.kind == "handler" and "TimeoutError" in unparse(m.ast.type)]
